@@ -20,7 +20,7 @@ class C09(ProgramProperty):
             "fresh records; chained case-sensitively and case-insensitively; and one parent converter restricted by "
             "get_subconverter to a subset given by canonical prefixes, synonyms, unknown strings or nothing. Records "
             "and a union probe set are read from inputs and results. Non-trivial = at least one merge happened "
-            "(the chain has fewer records than the inputs together) or the subset was given by a synonym.")
+            "(the chain has fewer records than the inputs together) or the subset was given by a synonym. In half of the cases the sub-converter and the one-element chain live on and acquire names by merge (names of parent records outside the subset, or new ones); the parent, a second restriction, a second chain and a fresh converter from the parent's records are then observed again.")
 
     def budget(self, tier):
         return 1500 if tier == "quick" else 40000
